@@ -117,17 +117,30 @@ end Aq
 
 /-! ### the FIFO-channel specification on a sequential history (independent of the models) -/
 
+/-- "<res>:<size>/<cap>" with size < cap -/
+def notFull (r : String) : Bool :=
+  match r.splitOn ":" with
+  | [_, sc] =>
+    match sc.splitOn "/" with
+    | [a, b] => match a.toNat?, b.toNat? with
+      | some a, some b => a < b
+      | _, _ => false
+    | _ => false
+  | _ => false
+
 /-- walks ops and implementation results with a reference list; returns a violation message -/
 def seqSpec (ops res : List String) : Option String :=
   let rec go (ops res : List String) (q : List String) (closed : Bool) : Option String :=
     match ops, res with
-    | o :: os, r :: rs =>
-      let r := (r.splitOn ":").headD r
+    | o :: os, r0 :: rs =>
+      let r := (r0.splitOn ":").headD r0
       match o.front with
       | 's' | 'S' =>
         let v := (o.drop 1).toString
         if r == "T" then
           (if closed then some s!"send after close succeeded ({o})" else go os rs (q ++ [v]) closed)
+        else if r == "B" ∧ !closed ∧ notFull r0 then
+          some s!"send {o} would block although the buffer is not full ({r0})"
         else go os rs q closed
       | 'r' | 'R' | 't' =>
         if r.startsWith "v" then
@@ -257,6 +270,7 @@ def kvNat (tok key : String) : Option Nat :=
   if tok.startsWith (key ++ "=") then natOf (tok.drop (key.length + 1)).toString else none
 
 def step (c impl : String) : String :=
+  if impl.startsWith "PANIC" then specViol s!"the queue panicked: {impl}" else
   match fields c with
   | "mq" :: cap :: ext :: ops =>
     match natOf cap, intOf ext with
